@@ -66,7 +66,7 @@ def run_vdrv(args, stdin=None, timeout=600, env=None):
         e.update(env)
     try:
         p = subprocess.run([VDRV] + list(args), input=stdin, stdout=subprocess.PIPE,
-                           stderr=subprocess.PIPE, text=True, timeout=timeout, env=e)
+                           stderr=subprocess.PIPE, text=True, errors="replace", timeout=timeout, env=e)
     except subprocess.TimeoutExpired:
         raise Infra("vdrv %s timed out after %ss" % (" ".join(args[:3]), timeout))
     return p.returncode, p.stdout, p.stderr
